@@ -49,6 +49,24 @@ def run(ctx):
         for entry in ("universal", "cached", "pipeline", "legacyoptions", "legacyfuzzy", "legacynlp", "cli"):
             extra.append(dict(entry=entry, limit=5, nlp=entry in ("legacynlp", "cli"), fuzzy=entry in ("legacyfuzzy", "universal"), thr=0, ponly=False,
                               pboost=False, allplat=False, plats=[], nocross=False, boost=False, query="raw", raw=raw, corpus="alpha"))
+    # command lines whose answer comes from the last-resort recovery searches (nothing matches lexically or as a typo)
+    for qk in ("substr", "partial"):
+        for plats in ([], ["windows"], ["linux"]):
+            for lim in (5, 20):
+                extra.append(dict(entry="cli", limit=lim, nlp=True, fuzzy=True, thr=-30, ponly=False, pboost=False, allplat=False, plats=plats,
+                                  nocross=False, boost=False, query=qk, corpus="mix"))
+    # ... because the only commands containing the query belong to another platform (the recovery searches ignore platforms)
+    for raw in ("git mwibhonc", "curl pserdwaf", "git mwibhonc entry", "zq8u lumqesti"):
+        for lim in (5, 20):
+            extra.append(dict(entry="cli", limit=lim, nlp=True, fuzzy=True, thr=-30, ponly=False, pboost=False, allplat=False, plats=["linux"],
+                              nocross=True, boost=False, query="raw", raw=raw, corpus="uniq"))
+    # a query just under the length limit whose re-spelling with wider characters (KELVIN SIGN: 3 bytes for 1) is over it
+    filler = " ".join("k%dkk" % i for i in range(150))           # 150 unknown words, about 900 bytes
+    for tail in ("frobnicate widget", "delete item", "frobnicte"):
+        for entry in ("universal", "cached", "search"):
+            for nlp in (False, True):
+                extra.append(dict(entry=entry, limit=5, nlp=nlp, fuzzy=True, thr=0, ponly=False, pboost=False, allplat=True, plats=[],
+                                  nocross=False, boost=False, query="raw", raw=(filler + " " + tail)[-990:].strip(), corpus="mix"))
     for s in extra:
         if s["entry"] == "cli":
             s.update(nlp=True, fuzzy=True, thr=-30)
